@@ -1,5 +1,5 @@
 (* C18 oracle: the extracted decision model of cli.rs (Cli.case_validate / Cli.case_compile).
-   V <dcb><dsj> <ci> <hdr> <k features | -> <schema code> <json srcs> <cbor srcs> <csv srcs> <stdin src | ->
+   V <ci> <hdr> <k features | -> <schema code> <json srcs> <cbor srcs> <csv srcs> <stdin src | ->
        srcs: comma separated  efu:bbbbbbbb  (exists, isfile, utf8 : eight library verdicts), or - for none
    C <ci> <file status code> *)
 open Cli_model
@@ -23,10 +23,10 @@ let () =
     while true do
       let line = input_line stdin in
       match Common.split_tab line with
-      | "V" :: dv :: ci :: hdr :: f :: sc :: js :: cs :: ss :: si :: _ ->
+      | "V" :: ci :: hdr :: f :: sc :: js :: cs :: ss :: si :: _ ->
         let stdin_src = if si = "-" then None else Some (dsrc_of si) in
         print_endline (string_of_codes
-          (case_validate (b dv.[0]) (b dv.[1]) (b ci.[0]) (b hdr.[0]) (feats_of f) (n_of_int (int_of_string sc))
+          (case_validate (b ci.[0]) (b hdr.[0]) (feats_of f) (n_of_int (int_of_string sc))
              (srcs_of js) (srcs_of cs) (srcs_of ss) stdin_src))
       | "C" :: ci :: f :: _ ->
         print_endline (string_of_codes (case_compile (b ci.[0]) (n_of_int (int_of_string f))))
